@@ -582,13 +582,13 @@ func anyValue(ssa.Value) bool { return true }
 func isParam(fn *ssa.Function, name string) func(ssa.Value) bool {
 	return func(v ssa.Value) bool {
 		p, ok := v.(*ssa.Parameter)
-		return ok && p.Parent() == fn && p.Name() == name
+		return ok && p.Parent() == fn && paramIs(p, name)
 	}
 }
 
 func param(fn *ssa.Function, name string) *ssa.Parameter {
 	for _, p := range fn.Params {
-		if p.Name() == name {
+		if paramIs(p, name) {
 			return p
 		}
 	}
@@ -707,7 +707,7 @@ func isParamVar(c *Ctx, v ssa.Value, name string) bool {
 	v = strip2(v)
 	switch x := v.(type) {
 	case *ssa.Parameter:
-		return x.Name() == name
+		return paramIs(x, name)
 	case *ssa.UnOp:
 		if x.Op != token.MUL {
 			return false
@@ -729,7 +729,7 @@ func isParamCell(c *Ctx, cell ssa.Value, name string) bool {
 			case *ssa.Store:
 				if st.Addr == ssa.Value(a) {
 					nstores++
-					if p, ok := st.Val.(*ssa.Parameter); ok && p.Name() == name {
+					if p, ok := st.Val.(*ssa.Parameter); ok && paramIs(p, name) {
 						okStore = true
 					}
 				}
